@@ -46,10 +46,17 @@ pub fn gen_command(rng: &mut Rng) -> UserKind {
 }
 
 pub fn gen_echo_mutation(rng: &mut Rng) -> EchoMutation {
-    match rng.below(10) {
+    match rng.below(15) {
         0 | 1 => EchoMutation::Status {
             object: rng.urange(0, 8),
-            status: rng.range(1, 20) as u8,
+            // (now and then the values at the edges of the 7-bit status field, and the reserved bit on top of SUCCESS)
+            status: match rng.below(8) {
+                0 => 126,
+                1 => 127,
+                2 => 0x80,
+                3 => 0x80 | rng.range(1, 20) as u8,
+                _ => rng.range(1, 20) as u8,
+            },
         },
         2 | 3 => EchoMutation::ValueBit {
             object: rng.urange(0, 8),
@@ -62,7 +69,18 @@ pub fn gen_echo_mutation(rng: &mut Rng) -> EchoMutation {
         8 => EchoMutation::Index {
             object: rng.urange(0, 8),
         },
-        _ => EchoMutation::Qualifier,
+        9 => EchoMutation::Qualifier,
+        10 => EchoMutation::AddHeader,
+        11 => EchoMutation::SwapFirstTwoHeaders,
+        12 => EchoMutation::IndexHigh {
+            object: rng.urange(0, 8),
+        },
+        13 => EchoMutation::Variation {
+            header: rng.urange(0, 3),
+        },
+        _ => EchoMutation::QualifierOf {
+            header: rng.urange(0, 3),
+        },
     }
 }
 
@@ -555,6 +573,9 @@ pub fn analyse(
     let mut arrivals: Vec<Arrival> = Vec::new();
     // instants at which something other than the reply stream interfered: (time, what)
     let mut disturbances: Vec<(u64, String)> = Vec::new();
+    // associations removed at run time: (virtual ms, address); the script names them by position among those still there
+    let mut removed_assocs: Vec<(u64, u16)> = Vec::new();
+    let mut assocs_alive: Vec<u16> = case.cfg.assocs.iter().map(|a| a.address).collect();
     let mut connected_spans: Vec<(u64, Option<u64>)> = Vec::new();
     let mut queue: BTreeMap<u16, VecDeque<u64>> = BTreeMap::new();
     let mut current: BTreeMap<u16, usize> = BTreeMap::new();
@@ -723,6 +744,12 @@ pub fn analyse(
                 | Some(MOp::NetPlan(_))
                 | Some(MOp::Enable) => {
                     disturbances.push((*t, format!("{:?}", case.script[*index])));
+                    if let Some(MOp::RemoveAssoc(k)) = case.script.get(*index) {
+                        if !assocs_alive.is_empty() {
+                            let addr = assocs_alive.remove(*k % assocs_alive.len());
+                            removed_assocs.push((*t, addr));
+                        }
+                    }
                 }
                 Some(MOp::KillMaster) => {
                     disturbances.push((*t, "kill".to_string()));
@@ -850,7 +877,7 @@ pub fn analyse(
         if let Some((t, _, false, outcome)) = &u.done {
             let shut_down = killed_at.map(|k| k <= *t).unwrap_or(false);
             // (requests of an association that is being removed are dropped with it: the property names no error for that)
-            let removed = disturbances.iter().any(|(dt, what)| *dt <= *t && what.starts_with("RemoveAssoc"));
+            let removed = removed_assocs.iter().any(|(dt, addr)| *dt <= *t && *addr == u.assoc);
             // (a reader that aborts the transfer itself in `opened` is told so through the drop of the task: error value unspecified)
             let self_aborted = matches!(u.kind, UserKind::FileRead { abort_at: Some(_), .. });
             if outcome.contains("Shutdown") && !shut_down && !removed && !self_aborted {
@@ -1156,7 +1183,7 @@ pub fn analyse(
         // R3: success only if every step was truly accepted
         // a request written less than the latency before the connection went down never reached the scripted outstation: the
         // steps of such a task are not all known
-        let request_lost_in_flight = connected_spans.iter().any(|(_, b)| {
+        let request_lost_in_flight = case.latency.0 > 0 && connected_spans.iter().any(|(_, b)| {
             b.map(|b| b >= task.start_t && b <= done_t + case.latency.0 + 1)
                 .unwrap_or(false)
         });
